@@ -191,6 +191,11 @@ func Open(path string, o OpenCfg) (idx *updog.Index, cc *CacheCounters, err erro
 		if o.Twice {
 			opts = append(opts, opts...)
 		}
+		if o.Via == ViaRelCwd {
+			var e error
+			idx, cc, e = openRelCwd(path, o)
+			return e
+		}
 		if o.Via != ViaPlain {
 			alias, _, aerr := Alias(path, o.Via)
 			if aerr != nil {
@@ -391,10 +396,13 @@ const (
 	ViaDotDot  // dir/../dir/file
 	ViaLinkUp  // other/hop/../file where hop is a symbolic link to dir/sub: the
 	// operating system resolves it to dir/file, cleaning the text gives other/file
+	ViaRelCwd // the bare file name, relative to a working directory that Open
+	// changes to the file's directory - after having opened, under the very same
+	// relative name and still open, an index of OTHER content in another directory
 	NVia
 )
 
-var ViaName = []string{"plain path", "relative symlink", "absolute symlink", "dir/../dir/file", "symlinked directory followed by .."}
+var ViaName = []string{"plain path", "relative symlink", "absolute symlink", "dir/../dir/file", "symlinked directory followed by ..", "relative name after a change of the working directory"}
 
 // Alias returns a name of kind via for the file real (which need not exist
 // yet), creating the links it needs; lexical is what a purely textual
@@ -431,4 +439,55 @@ func Alias(real string, via int) (alias, lexical string, err error) {
 		return other + "/hop/../" + base, filepath.Join(other, base), nil
 	}
 	return real, real, nil
+}
+
+// openRelCwd opens path under its bare name from its own directory, after an
+// index of other content was opened under the same bare name from another
+// directory (and is still open): whatever is keyed by the name a caller
+// passed must not confuse the two files.  The working directory is restored.
+func openRelCwd(path string, o OpenCfg) (*updog.Index, *CacheCounters, error) {
+	dir, base := filepath.Dir(path), filepath.Base(path)
+	old, err := os.Getwd()
+	if err != nil {
+		panic("INFRA: " + err.Error())
+	}
+	defer os.Chdir(old)
+	decoyDir := filepath.Join(dir, "alias-cwd")
+	if err := os.MkdirAll(decoyDir, 0o755); err != nil {
+		panic("INFRA: " + err.Error())
+	}
+	if _, err := os.Stat(filepath.Join(decoyDir, base)); err != nil {
+		if _, err := BuildAt(filepath.Join(decoyDir, base), []model.Row{{"decoy": "yes"}, {"decoy": "yes", "other": "file"}}, WMemFile); err != nil {
+			panic("INFRA: " + err.Error())
+		}
+	}
+	mkopts := func() ([]updog.IndexOption, *CacheCounters) {
+		var opts []updog.IndexOption
+		var cc *CacheCounters
+		if o.Preload {
+			opts = append(opts, updog.WithPreloadedData())
+		}
+		if o.CacheCap >= 0 {
+			cc = &CacheCounters{}
+			opts = append(opts, updog.WithCache(updog.NewLRUCache(uint64(o.CacheCap), updog.WithCacheMetrics(cc.Metrics()))))
+		}
+		if o.Twice {
+			opts = append(opts, opts...)
+		}
+		return opts, cc
+	}
+	if err := os.Chdir(decoyDir); err != nil {
+		panic("INFRA: " + err.Error())
+	}
+	dopts, _ := mkopts()
+	decoy, _ := updog.OpenIndex(base, dopts...)
+	if decoy != nil {
+		defer decoy.Close()
+	}
+	if err := os.Chdir(dir); err != nil {
+		panic("INFRA: " + err.Error())
+	}
+	opts, cc := mkopts()
+	idx, err := updog.OpenIndex(base, opts...)
+	return idx, cc, err
 }
